@@ -167,6 +167,14 @@ mut("reduce_nesting_drops_first_grandchild", ["C06"], "optimizeReduceNesting/saf
 mut("reduce_nesting_rewrites_child_list", ["C02"], "optimizeReduceNesting/storesite",
     [("compiler.go", "\t\tif isAndOpNode(cn) == rootOpType {\n\t\t\tchildren = append(children, child.children...)\n",
       "\t\tif isAndOpNode(cn) == rootOpType {\n\t\t\tchildren = append(children, child.children...)\n\t\t\tchild.children = nil\n")], "flattening also empties the nested operator, which other references still use")
+# ---- C01 (integer literals are decimal)
+mut("int_literal_base_prefixes", ["C01"], "parser.parseInt/post/integer-literal-is-decimal-int64",
+    [("parser.go", "\tv, err := strconv.ParseInt(t.val, 10, 64)\n\tif err != nil {\n\t\treturn nil, err\n\t}\n\tp.walk()", "\tv, err := strconv.ParseInt(t.val, 0, 64)\n\tif err != nil {\n\t\treturn nil, err\n\t}\n\tp.walk()")], "010 is read as octal")
+mut("int_list_elements_32bit", ["C01"], "parser.parseList.$1/inv/loop2[elements-are-decimal-int64",
+    [("parser.go", "\t\t\t\tv, err := strconv.ParseInt(s, 10, 64)\n\t\t\t\tif err != nil {\n\t\t\t\t\treturn nil, err\n\t\t\t\t}\n\t\t\t\tints = append(ints, v)",
+      "\t\t\t\tv, err := strconv.ParseInt(s, 10, 32)\n\t\t\t\tif err != nil {\n\t\t\t\t\treturn nil, err\n\t\t\t\t}\n\t\t\t\tints = append(ints, v)")], "list elements beyond int32 are rejected")
+mut("lexer_accepts_hex_integers", ["C01"], "parser.lex/",
+    [("parser.go", "\t\t\t_, err := strconv.ParseInt(s, 10, 64)\n\t\t\treturn err == nil", "\t\t\t_, err := strconv.ParseInt(s, 0, 64)\n\t\t\treturn err == nil")], "0x10 becomes an integer token that parseInt then rejects")
 # ---- probes of mechanisms that only the bounded tier covers
 mut("reduce_nesting_merges_any_bool_operator", ["C02"], "bnd/",
     [("compiler.go", "\t\tif isAndOpNode(cn) == rootOpType {\n\t\t\tchildren = append(children, child.children...)", "\t\tif isAndOpNode(cn) == rootOpType || len(child.children) == 2 {\n\t\t\tchildren = append(children, child.children...)")], "a two-operand or inside an and (or vice versa) is flattened into its parent")
